@@ -91,7 +91,7 @@ def main():
                   'serves_properties': READY,
                   'kind_free_text': 'Coq 8.16.1 development (hand-written executable model + theorems) and a Python harness that evaluates the model inside Coq (vm_compute) and the implementation from /repo/src on the same generated cases'}],
      'checks': checks,
-     'notes': 'see DESIGN.md; known_findings.json lists repaired defects (fixed:) and the one recorded finding KF-C06-1',
+     'notes': 'see DESIGN.md; known_findings.json lists the repaired defects (fixed: D1-D22, incl. the former finding KF-C06-1); no known finding is open',
      'not_applicable': na,
     }
     json.dump(m, open(os.path.join(HERE, 'MANIFEST.json'), 'w'), indent=1)
